@@ -235,13 +235,28 @@ func (e *Engine) interop(fr *frame, st *State, c *ast.CallExpr, fn *types.Func, 
 			k(st, []Val{e.uf(short, resTy, vs...)})
 		})
 	case has(full, "interop/util.Remove"):
-		// in-place removal from a slice variable
+		// in-place removal of element i from a slice variable: the tail shifts down by one
 		withArgs(func(st *State, vs []Val) {
-			if id, ok := c.Args[0].(*ast.Ident); ok {
-				obj := info.Uses[id]
-				st.vars[obj] = e.uf("list_remove_"+vs[0].Ty.Sort(), vs[0].Ty, vs[0], vs[1])
+			id, ok := c.Args[0].(*ast.Ident)
+			if !ok || vs[0].Ty.K != spec.KList {
+				panic("util.Remove on a non-variable")
 			}
-			k(st, nil)
+			l, i := vs[0], vs[1]
+			e.guard(fr, st, sx.And(sx.App("<=", sx.Int(0), i.T), sx.App("<", i.T, lenOf(l))), "util.Remove: index out of range", func(st *State) {
+				r := e.freshOf(l.Ty, "rm")
+				j := sx.Atom("j?rm")
+				sel := func(v Val, at *sx.T) *sx.T { return sx.App("select", arrOf(v), at) }
+				q := func(body *sx.T) *sx.T {
+					return sx.List(sx.Atom("forall"), sx.List(sx.List(j, sx.Atom("Int"))), sx.List(sx.Atom("!"), body, sx.Atom(":pattern"), sx.List(sel(r, j))))
+				}
+				st.facts = append(st.facts,
+					sx.App("=", lenOf(r), sx.App("-", lenOf(l), sx.Int(1))),
+					sx.Not(sx.App(l.Ty.Name+"_null", r.T)),
+					q(sx.Implies(sx.And(sx.App("<=", sx.Int(0), j), sx.App("<", j, i.T)), sx.App("=", sel(r, j), sel(l, j)))),
+					q(sx.Implies(sx.And(sx.App("<=", i.T, j), sx.App("<", j, lenOf(r))), sx.App("=", sel(r, j), sel(l, sx.App("+", j, sx.Int(1)))))))
+				st.vars[info.Uses[id]] = r
+				k(st, nil)
+			})
 		})
 	default:
 		if e.Sweep {
